@@ -373,12 +373,21 @@ def r6_2(F, R, tier):
             what=": TeX reports the documented overflow error instead of crashing")
 
 
+def r6_4(F, R):
+    import json, os
+    from .common import narrowing_rule
+    aud = json.load(open(os.path.join(os.path.dirname(os.path.dirname(os.path.dirname(os.path.abspath(__file__)))), "tables", "narrowing_audited.json")))
+    narrowing_rule(F, R, "R6.4", "the numeric modules (texlang::parse, texlang-stdlib math/the/registers, common)",
+                   lambda fn: fn.crate == "common.lib" or "texlang::parse::" in fn.name or any(x in fn.name for x in ("texlang_stdlib::math::", "texlang_stdlib::the::", "texlang_stdlib::registers::")), 8, aud)
+
+
 def run(F, R, tier):
     r6_1(F, R)
     r6_1b(F, R)
     r6_1c(F, R)
     r6_1d(F, R)
     r6_3(F, R)
+    r6_4(F, R)
     r6_2(F, R, tier)
     return ("Static analysis (partial claim). Decided: the operator table of \\advance/\\multiply/\\divide (wrap / checked+error / checked+error, error => no "
             "store) by finite-domain specialisation; the unit conversion fractions and both keyword tables against TeX §458; every potential-panic site of "
